@@ -51,6 +51,7 @@ static inline void mpsc_fifo_push(mpsc_fifo_t* f, mpsc_fifo_node_t* new_node) {
   // reader as the new tail
   mpsc_fifo_node_t* const prev_tail =
       atomic_exchange_explicit(&f->tail, new_node, memory_order_release);
+  FIBER_VERIF_POINT(FV_MPSC_MID, f, new_node);
   prev_tail->next = new_node;
 }
 
